@@ -219,9 +219,44 @@ type promTarget struct {
 	url  string
 }
 
+// sysNoFile is the open-files limit every kvass process of a run gets (a pod's limit is finite too; the coordinator
+// runs hundreds of cycles in a run, so descriptors that are not given back run out within seconds).  What a process
+// legitimately holds - log, listening sockets, a handful of keep-alive connections per peer - stays below 25 in
+// these runs (recorded as class sys/most-open-files-...).
+const sysNoFile = 96
+
+// limited wraps a command so that it runs under the open-files limit.
+func limited(bin string, args ...string) *exec.Cmd {
+	return exec.Command("/bin/sh", append([]string{"-c", fmt.Sprintf("ulimit -n %d; exec \"$0\" \"$@\"", sysNoFile), bin}, args...)...)
+}
+
+// openFiles counts the descriptors a process holds (0 if it is gone).
+func openFiles(pid int) int {
+	ents, err := ioutil.ReadDir(fmt.Sprintf("/proc/%d/fd", pid))
+	if err != nil {
+		return 0
+	}
+	return len(ents)
+}
+
+// outOfDescriptors reports the log file (of the coordinator or a sidecar) that complains about the open-files limit.
+func outOfDescriptors(dir string) string {
+	logs, _ := filepath.Glob(filepath.Join(dir, "*.log"))
+	more, _ := filepath.Glob(filepath.Join(dir, "*", "*.log"))
+	for _, f := range append(logs, more...) {
+		if data, err := ioutil.ReadFile(f); err == nil && bytes.Contains(data, []byte("too many open files")) {
+			i := bytes.Index(data, []byte("too many open files"))
+			from := bytes.LastIndexByte(data[:i], '\n') + 1
+			to := i + bytes.IndexByte(append(data[i:], '\n'), '\n')
+			return fmt.Sprintf("%s: %s", filepath.Base(f), data[from:to])
+		}
+	}
+	return ""
+}
+
 func (s *shardProc) start(bin string) error {
 	lf, _ := os.OpenFile(s.logf, os.O_CREATE|os.O_APPEND|os.O_WRONLY, 0644)
-	s.cmd = exec.Command(bin, s.args...)
+	s.cmd = limited(bin, s.args...)
 	s.cmd.Stdout, s.cmd.Stderr = lf, lf
 	s.cmd.SysProcAttr = &syscall.SysProcAttr{Pdeathsig: syscall.SIGKILL}
 	if err := s.cmd.Start(); err != nil {
@@ -642,7 +677,7 @@ func runSys(c *sysCase) (vs []vkit.Violation, classes []string, infra error) {
 	// ---- coordinator
 	cport := freePort()
 	clog, _ := os.Create(filepath.Join(dir, "coordinator.log"))
-	coord := exec.Command(bin, "coordinator", "--shard.type", "static", "--shard.static-file", staticFile, "--config.file", cfgFile,
+	coord := limited(bin, "coordinator", "--shard.type", "static", "--shard.static-file", staticFile, "--config.file", cfgFile,
 		"--coordinator.interval", "40ms", "--web.address", fmt.Sprintf("127.0.0.1:%d", cport),
 		"--shard.max-process-series", fmt.Sprint(c.MaxProc), "--sd.init-timeout", "20s", "--shard.max-head-series", fmt.Sprint(c.MaxHead))
 	if c.SAPath {
@@ -706,6 +741,7 @@ func runSys(c *sysCase) (vs []vkit.Violation, classes []string, infra error) {
 	var why []string
 	converged := false
 	cycles := 0
+	maxFDCoord, maxFDSide := 0, 0
 	// the Prometheus discovery manager publishes changes at most every 5 s: the cycle bound only starts to
 	// count once a configuration change has had 12 s of wall-clock time to arrive
 	lastReload := time.Now()
@@ -724,12 +760,30 @@ func runSys(c *sysCase) (vs []vkit.Violation, classes []string, infra error) {
 					add("C03/sys/coordinator-died", "the coordinator process exited:\n%s", tail(filepath.Join(dir, "coordinator.log")))
 					return vs, classes, nil
 				}
+				if w := outOfDescriptors(dir); w != "" {
+					p := "C03"
+					if len(c.Faults) > 0 {
+						p = "C06"
+					}
+					add(p+"/sys/out-of-file-descriptors", "no coordinator cycle observed within 20s (cycle %d): a kvass process ran into its open-files limit of %d: %s", k, sysNoFile, w)
+					return vs, classes, nil
+				}
 				return nil, nil, errInfra{fmt.Sprintf("no coordinator cycle observed within 20s (cycle %d)\n%s", k, tail(filepath.Join(dir, "coordinator.log")))}
 			}
 			time.Sleep(5 * time.Millisecond)
 		}
 		seen = atomic.LoadInt64(&shards[0].statusGets)
 		cycles = k
+		if n := openFiles(coord.Process.Pid); n > maxFDCoord {
+			maxFDCoord = n
+		}
+		for _, s := range shards {
+			if s.cmd != nil && s.cmd.Process != nil {
+				if n := openFiles(s.cmd.Process.Pid); n > maxFDSide {
+					maxFDSide = n
+				}
+			}
+		}
 		if k == 60 {
 			for _, s := range shards {
 				s.cfgPosts60 = atomic.LoadInt64(&s.cfgPosts)
@@ -911,6 +965,15 @@ func runSys(c *sysCase) (vs []vkit.Violation, classes []string, infra error) {
 		}
 	}
 	classes = append(classes, fmt.Sprintf("sys/cycles<=%d", (cycles+9)/10*10))
+	classes = append(classes, fmt.Sprintf("sys/most-open-files-of-the-coordinator<=%d", (maxFDCoord+7)/8*8), fmt.Sprintf("sys/most-open-files-of-a-sidecar<=%d", (maxFDSide+7)/8*8))
+	if w := outOfDescriptors(dir); w != "" {
+		p := "C03"
+		if len(c.Faults) > 0 {
+			p = "C06"
+		}
+		add(p+"/sys/out-of-file-descriptors", "after %d observed coordinator cycles a kvass process ran into its open-files limit of %d (descriptors are not given back): %s", cycles, sysNoFile, w)
+		return vs, classes, nil
+	}
 	if !converged {
 		sort.Strings(why)
 		p := "C03"
